@@ -98,6 +98,7 @@ type message struct {
 	Raw     string
 	Gate    bool // the peer waits for the workload to open the gate before sending
 	Open    bool
+	WithEOF bool // delivered to the server together with io.EOF (a final record)
 	Sent    int // seq of peer send (-1)
 	Arrive  int // seq of the server's Recv return (-1)
 }
@@ -151,6 +152,8 @@ type action struct {
 	CancelEnd int
 	cancel    func()
 	Result    string
+	ErrCode   int
+	ErrData   string
 	ErrV      error
 	FromH     *member // issued from inside this handler (nil: outside task)
 	Twice     bool    // Stop called twice
@@ -175,6 +178,7 @@ type peerReply struct {
 	Raw     string
 	IsErr   bool
 	Defect  bool // a member with one structural defect (id still resolvable)
+	Code    int  // error code of an error reply
 }
 
 type srvWorld struct {
@@ -209,6 +213,7 @@ type srvWorld struct {
 	causes    []stopCause
 	arrScan   int
 	started   bool
+	eofFaultSeq int // seq at which a data+EOF fault fired (0: never)
 	optK       int  // value of the Concurrency option (0: unset)
 	bigK       bool
 	restartEnd *End // if set, the server is started on this end as soon as WaitStatus returns
@@ -778,7 +783,9 @@ func (w *srvWorld) queueReply(pr *pushRec, unknownFirst bool) {
 	rep := peerReply{Seq: w.seq(), Arrive: -1, Payload: pay}
 	if w.r.Sch.Chance("replyerr", 0.25) {
 		rep.IsErr = true
-		rep.Raw = fmt.Sprintf(`{"jsonrpc":"2.0","id":%s,"error":{"code":%d,"message":"%s"}}`, pr.ID, 8000+w.nreply, pay)
+		// a client may fail a callback with any code, the protocol's own included
+		rep.Code = []int{8000 + w.nreply, 8000 + w.nreply, -32601, -32602, -32603, -32600, -32700, -32098, 1}[w.r.Sch.Int("replycode", 9)]
+		rep.Raw = fmt.Sprintf(`{"jsonrpc":"2.0","id":%s,"error":{"code":%d,"message":"%s","data":{"d":"%s"}}}`, pr.ID, rep.Code, pay, pay)
 	} else {
 		rep.Raw = fmt.Sprintf(`{"jsonrpc":"2.0","id":%s,"result":{"r":"%s"}}`, pr.ID, pay)
 	}
@@ -858,6 +865,7 @@ func (w *srvWorld) doPushAct(base context.Context, a *action) {
 		}
 		if e, ok := err.(*jrpc2.Error); ok {
 			a.Result = "E:" + e.Message
+			a.ErrCode, a.ErrData = int(e.Code), string(e.Data)
 		} else if err != nil && a.Kind == aCallback && err != context.Canceled && err != context.DeadlineExceeded && err != jrpc2.ErrConnClosed && err != jrpc2.ErrPushUnsupported {
 			a.Result = "X:" + err.Error()
 		}
@@ -977,9 +985,9 @@ func (w *srvWorld) noteArrivals() {
 		if e.Kind != "ch.recv.ret" || e.Tag != "srv" {
 			continue
 		}
-		raw := e.S
+		raw, suffix := e.S, ""
 		if i := strings.LastIndex(raw, "|"); i >= 0 {
-			raw = raw[:i]
+			raw, suffix = raw[:i], raw[i+1:]
 		}
 		if raw == "" {
 			continue
@@ -987,6 +995,7 @@ func (w *srvWorld) noteArrivals() {
 		for _, m := range w.msgs {
 			if m.Sent >= 0 && m.Arrive < 0 && m.Raw == raw {
 				m.Arrive = w.arrScan
+				m.WithEOF = suffix == "EOF"
 				break
 			}
 		}
